@@ -151,7 +151,9 @@ def run(ctx):
                     elif oc != model and not (model == "ValueError" and oc in ("AssertionError", "ArgumentError")):
                         ctx.count(f"refused-with-other-exception:{oc}-vs-{model}")
     # ---- ax_plus_y -----------------------------------------------------------------------------
-    sets = [[[2, 0, 2]], [[2, 0, 2], [1, 1, 2]], [[1, 1, 2]], [[2, 0, 3]]]
+    # (sets of equal size that share their first sectors: a refusal must come before any sector is touched)
+    sets = [[[2, 0, 2]], [[2, 0, 2], [1, 1, 2]], [[1, 1, 2]], [[2, 0, 3]], [[2, 0, 2], [1, -1, 2]],
+            [[2, 0, 2], [1, 1, 2], [3, 1, 2]], [[2, 0, 2], [1, 1, 2], [3, -1, 2]]]
     for pa, pb in itertools.product(sets, repeat=2):
         a, b = fqe.Wavefunction(pa), fqe.Wavefunction(pb)
         U.random_fill(a, rng)
